@@ -15,10 +15,17 @@ import warnings
 from pathlib import Path
 from typing import Any
 
+import sys
+
 from .. import e2e, guard
 from ..common import Hang, Rng, hx, unhx, watchdog
 from ..runner import Check
+from . import c16_bridge
 from .c17 import parse_sx, unbound_aliased
+
+# (document, kind, None | failing mechanism) of every end-to-end case of this run: input of the
+# acceptance tie of the bridge (c16_bridge.campaign_accepts)
+ACCEPT_LOG: list = []
 
 
 # ------------------------------------------------------------------ JSON values ⇄ line protocol
@@ -559,6 +566,7 @@ def oracle_case(ck: Check, camp, doc: dict, fmt: str, kind: str) -> None:
     camp.hit(f"format:{fmt}")
     camp.hit(f"kind:{kind}")
     r = evaluate(doc, fmt, kind)
+    ACCEPT_LOG.append((doc, kind, None if r is None else r[0]))
     if r is None:
         camp.hit("accepted_and_keys_equal")
         if len(camp.samples) < 3 and 30 < len(json.dumps(doc)) < 240:
@@ -576,7 +584,9 @@ def oracle_case(ck: Check, camp, doc: dict, fmt: str, kind: str) -> None:
     ck.fail({"oracle": "sample_accepted", "format": "csv" if fmt == "csv" else "document", "kind": kind, "mechanism": mechanism, "trigger": trig,
              "cause": cause_of(mechanism, observed), "has_all_null_array": has_all_null_array(small),
              "has_typename_key": any(key_class(k) == "typename" for k in all_keys(small)),
-             "has_astral_key": any(key_class(k) == "astral" for k in all_keys(small))},
+             "has_astral_key": any(key_class(k) == "astral" for k in all_keys(small)),
+             # where the shrunk document lies w.r.t. the decidable hypothesis of C16.sample_accepted_partial
+             "v1_region": c16_bridge.region_of(ck, small, kind) if mechanism == "sample_rejected" else "n/a"},
             {"document": small, "format": fmt, "model": kind, "original_document": doc if small is not doc else None}, observed)
 
 
@@ -635,6 +645,11 @@ CORPUS = [
     ({"a": 1, "A": 2}, "pydantic_v2.BaseModel"),
     ({"a": [1, 2.5, None, {"k": 1}, {"k": "s", "j": []}], "b": [], "c": {}, "d": [[1, 2], [3]], "e": None}, "pydantic.BaseModel"),
     ({"class": {"x-y": None, "_p": 1, "copy": 3}, "1st": {}, "a b": 1}, "pydantic_v2.BaseModel"),
+    # the boundary of the region of C16.sample_accepted_partial for pydantic-v1 output: the first lies outside
+    # (`Optional[List[None]]`, known finding C16-v1-list-of-none), the others inside and are accepted
+    ({"k1": [[None], None]}, "pydantic.BaseModel"),
+    ({"k1": [[None], None]}, "pydantic_v2.BaseModel"),
+    ({"k1": [[None, 1], None], "k2": [[None]], "k3": [[None], None, 1], "k4": [None], "k5": [[[None]], None]}, "pydantic.BaseModel"),
 ]
 
 
@@ -668,13 +683,18 @@ def run(ck: Check) -> None:
         "documents are JSON-like: string keys, null/bool/int/float/str scalars, arrays, objects; NaN/Infinity and non-string YAML keys are outside the domain",
         "floats are distinguished from ints the way Python's json/yaml loaders do (1.0 is a float)",
         "'dumping by wire name returns the document's keys' is read as model_dump(by_alias=True, exclude_unset=True): members the document did not set (optional members of merged array items) are not part of the comparison",
-        "the theorem covers the first stage (inferred schema accepts the sample); schema → model → pydantic acceptance is covered by the end-to-end oracle only",
+        "the composed theorems (sample_accepted_*) are about Model.Infer ∘ InferBridge.toSchema ∘ Model.Translate.tr ∘ Sem.Pyd.acceptsTy; each seam is validated in this run (genson, the schema text generate() hands to the parser, the parser's IR, the exec'd classes), not verified; class / member names and the wire names of model_dump(by_alias) are outside those models and rest on the end-to-end oracle only",
+        "Sem.Pyd (trusted, C03) does not model pydantic v1's refusal of None for Optional[List[None]]: the v1 statement is claimed on v1Safe only (known finding C16-v1-list-of-none is the refuting witness outside it)",
         "pydantic-v1-style output is executed on pydantic.v1 of pydantic 2.13; the key `__root__` (pydantic v1's own wire name for custom roots, unwrapped by its dict()) is not used in documents for v1-style output",
     ]
     guard.campaign(ck, campaign_infer, 600 if quick else 6000)
     guard.campaign(ck, campaign_valid, 600 if quick else 6000)
+    guard.campaign(ck, c16_bridge.campaign_bridge, 120 if quick else 1500, sys.modules[__name__])
+    del ACCEPT_LOG[:]
     guard.campaign(ck, campaign_documents, 200 if quick else 2500)
     guard.campaign(ck, campaign_csv, 50 if quick else 500)
+    guard.campaign(ck, c16_bridge.campaign_accepts, list(ACCEPT_LOG))
+    guard.campaign(ck, c16_bridge.campaign_v1_boundary, 2 if quick else 3, sys.modules[__name__])
     ck.search_hooks.append(search_keys)
     known_findings(ck)
 
